@@ -1,0 +1,32 @@
+//go:build verif
+
+/*
+ Licensed to the Apache Software Foundation (ASF) under one
+ or more contributor license agreements.  See the NOTICE file
+ distributed with this work for additional information
+ regarding copyright ownership.  The ASF licenses this file
+ to you under the Apache License, Version 2.0 (the
+ "License"); you may not use this file except in compliance
+ with the License.  You may obtain a copy of the License at
+
+     http://www.apache.org/licenses/LICENSE-2.0
+
+ Unless required by applicable law or agreed to in writing, software
+ distributed under the License is distributed on an "AS IS" BASIS,
+ WITHOUT WARRANTIES OR CONDITIONS OF ANY KIND, either express or implied.
+ See the License for the specific language governing permissions and
+ limitations under the License.
+*/
+
+package ugm
+
+// Export shims for the model-based verification of the manager as a state machine (module ugmlimits, build tag verif).
+
+// VerifResetGlobalManager replaces the process wide manager by a new, empty one and returns it.
+// The queue trackers read the wildcard user limits through the package level manager (newQueueTracker), so a manager
+// that is driven through its public API must be the process wide one.
+func VerifResetGlobalManager() *Manager {
+	once.Do(func() {})
+	m = newManager()
+	return m
+}
